@@ -375,11 +375,39 @@ def check_huge(case):
 
 CHECKS["huge"] = check_huge
 
+
+def check_light(case):
+    """The cheap structural predicates alone, so that a whole further length can be swept:
+    simplicity, strong simplicity (simple, and every one-point deletion simple), sum / skew
+    decomposability - each against its definition."""
+    p = tuple(case)
+    n = len(p)
+    P = Perm(p)
+    simple = ref.is_simple(p)
+    if P.is_simple() != simple:
+        return BAD("light_is_simple", {"perm": list(p), "got": P.is_simple()})
+    strongly = simple and all(ref.is_simple(ref.delete_point(p, i)) for i in range(n))
+    if P.is_strongly_simple() != strongly:
+        return BAD("light_is_strongly_simple", {"perm": list(p), "got": P.is_strongly_simple(), "want": strongly})
+    if P.is_sum_decomposable() != ref.is_sum_decomposable(p) or P.is_skew_decomposable() != ref.is_skew_decomposable(p):
+        return BAD("light_decomposable", {"perm": list(p)})
+    return OK(simple, "simple" if simple else "not_simple", key="light" + str(p))
+
+
+CHECKS["light"] = check_light
+
+
+def shard_light(acc, shard, nshards, n):
+    for i, p in enumerate(ref.perms(n)):
+        if i % nshards == shard:
+            acc.record("light", check_light, list(p))
+
 # coverage-guided variants of the structured generators (thorough tier, pv/fuzz/target.py hyp:<name>)
 FUZZ = {"tuple": ("tuple", tuple_cases), "inflate": ("inflate", inflate_cases)}
 
 
 def run(acc, tier):
+    engine.pmap(acc, shard_light, extra=((8,) if tier == "quick" else (9,)))
     if tier == "quick":
         engine.pmap(acc, shard_perms, extra=(6,))
         engine.pmap(acc, shard_pairs, extra=(4,))
